@@ -195,14 +195,17 @@ def scenario(seed, cause, point, consumer, lines, restart=True):
         def until():
             # the moment the application could first SEE Closed: whoever observes the node then (is it closed? may I start it
             # again?) must find the sockets of the ended connection released - at every scheduler step, not only at the end
-            if obs["phase"] == "cause-applied" and socks and not obs.get("early"):
+            if socks and not obs.get("early"):
                 try:
                     stn = d.get_current_state()
                 except BaseException as e:
                     if isinstance(e, (KeyboardInterrupt, SystemExit)):
                         raise
                     stn = None
-                if stn == "Closed" and not socks[0].closed and not socks[0].refused:
+                if stn not in (None, "Closed"):
+                    obs["left_closed"] = True        # (Closed is also the state a node starts from, with its socket already created)
+                if obs["phase"] == "cause-applied" and obs.get("left_closed") and len(socks) == 1 \
+                        and stn == "Closed" and not socks[0].closed and not socks[0].refused:
                     obs["early"] = "the node reports Closed while the socket of the ended connection is still open"
             for k in socks:
                 st = peer.setdefault(id(k), {"cea": False, "off": 0, "dpa": False})
@@ -331,14 +334,17 @@ def server_scenario(seed, cause, consumer, lines):
         served = {}
 
         def until():
-            if obs["phase"] == "cause-applied" and conns and not obs.get("early"):
+            if conns and not obs.get("early"):
                 try:
                     stn = d.get_current_state()
                 except BaseException as e:
                     if isinstance(e, (KeyboardInterrupt, SystemExit)):
                         raise
                     stn = None
-                if stn == "Closed" and (not conns[0].closed or (listeners and not listeners[0].closed)):
+                if stn not in (None, "Closed"):
+                    obs["left_closed"] = True
+                if obs["phase"] == "cause-applied" and obs.get("left_closed") and len(listeners) == 1 \
+                        and stn == "Closed" and (not conns[0].closed or not listeners[0].closed):
                     obs["early"] = "the node reports Closed while the connection / listening socket is still open"
             for L in listeners:
                 if id(L) not in served and not L.closed:
